@@ -35,6 +35,12 @@ KERNEL int K(k_prod_axis)(SIG, int axis, OUTS){ MK; OBS_ANY(view::prod(a, axis))
 KERNEL int K(k_amax_axis)(SIG, int axis, OUTS){ MK; OBS_ANY(view::amax(a, axis)); }
 KERNEL int K(k_amin_axis)(SIG, int axis, OUTS){ MK; OBS_ANY(view::amin(a, axis)); }
 KERNEL int K(k_amax_none)(SIG, OUTS){ MK; OBS_ANY(view::amax(a)); }
+// signed elements: the extreme value of a slice of negative numbers is negative (no implicit 0 takes part)
+using a3i_t = hyb_t<int,27,3>;
+#define MKI a3i_t a; if (!mk3(a,shape,(const int*)data)) return -1
+KERNEL int K(k_amax_axis_i32)(SIG, int axis, OUTS){ MKI; OBS_ANY(view::amax(a, axis)); }
+KERNEL int K(k_amin_axis_i32)(SIG, int axis, OUTS){ MKI; OBS_ANY(view::amin(a, axis)); }
+KERNEL int K(k_amax_none_i32)(SIG, OUTS){ MKI; OBS_ANY(view::amax(a)); }
 KERNEL int K(k_cumsum_axis)(SIG, int axis, OUTS){ MK; OBS_ANY(view::cumsum(a, axis)); }
 KERNEL int K(k_cumprod_axis)(SIG, int axis, OUTS){ MK; OBS_ANY(view::cumprod(a, axis)); }
 // trace of a 2-d array (a number) and of a 3-d array over its first two axes (a 1-d array)
